@@ -55,6 +55,10 @@ if _log:
             rec = {"e": event, "p": paths[0] if paths else "?", "p2": paths[1] if len(paths) > 1 else None}
             if event in ("os.remove", "os.rmdir", "os.mkdir") and len(args) > 1 and isinstance(args[-1], int) and args[-1] != -1:
                 rec["dir_fd"] = True
+                try:  # the name is relative to an open directory (shutil.rmtree): resolve it
+                    rec["p"] = os.path.join(os.readlink(f"/proc/self/fd/{args[-1]}"), rec["p"])
+                except OSError:
+                    pass
         elif event == "subprocess.Popen":
             rec = {"e": "popen", "p": _p(args[0]), "argv": [str(a) for a in (args[1] or [])][:6]}
         if rec is None:
